@@ -243,5 +243,7 @@ def run_concurrent(sim, specs, chooser, shared_prefixes=()):
         r.replies = []
         r.prompted = []
         sim.log.append(r.as_log())
+        sim.ops_total += r.nops
+        sim.sims_total += 1
         results.append(r)
     return results, sch
